@@ -559,6 +559,75 @@ def edited_bundled(rng):
     return docs
 
 
+def live_cases(rng, names):
+    """a real Simulator.run() with a scheduler that asks its interface for prices at every invocation: the
+    recorded (current_time, prices, demand charge) become interface cases, the charging rates the run
+    produced become cost cases"""
+    from acnportal.acnsim import Simulator, ChargingNetwork, EventQueue, analysis
+    from acnportal.acnsim.events import PluginEvent
+    from acnportal.acnsim.models import EVSE, EV, Battery
+    from acnportal.algorithms import BaseAlgorithm
+
+    class Recorder(BaseAlgorithm):
+        def __init__(self, n, every):
+            super().__init__()
+            self.max_recompute = every
+            self.n = n
+            self.log = []
+
+        def schedule(self, active_sessions):
+            it = self.interface.current_time
+            self.log.append((it, call(lambda: self.interface.get_prices(self.n)),
+                             call(lambda: self.interface.get_demand_charge())))
+            return {s.station_id: [rate] for s, rate in zip(active_sessions, [16, 8, 24, 32])}
+
+    src = ("b", rng.choice(names))
+    T, _ = load_impl(src)
+    docs = bundled_docs(src[1])
+    period = rng.choice([1, 5, 15, 60])
+    start = boundary_instant(rng, docs) // US * US - rng.choice([0, 1, 2, 3]) * period * 60 * US
+    aware = rng.choice(AWARE)
+    voltages = [rng.choice([208.0, 240.0, 277.0]) for _ in range(rng.randint(1, 3))]
+    net = ChargingNetwork()
+    events = []
+    for i, v in enumerate(voltages):
+        net.register_evse(EVSE("S%d" % i), v, 0)
+        a = rng.randint(0, 4)
+        ev = EV(a, a + rng.randint(2, 10), rng.choice([2.0, 10.0]), "S%d" % i, "sess%d" % i, Battery(60, 0, 7))
+        events.append(PluginEvent(a, ev))
+    alg = Recorder(rng.choice([1, 3, 12]), rng.choice([1, 1, 2]))
+    sim = Simulator(net, alg, EventQueue(events), mkdt(start, aware), period=period, signals={"tariff": T}, verbose=False)
+    sim.run()
+    out = []
+    for it, pr, dc in alg.log:
+        out.append(dict(input=dict(op="Interface.get_prices", src=list(src), start=start, period=period, iteration=it,
+                                   length=alg.n, st=None, aware=aware, live=True), impl=jres(pr),
+                        coq="(CPrices (Some %s) %s %s %s %s None %s)" % (src_coq(src), z(start), z(period), z(it), z(alg.n),
+                                                                       res_coq(pr, qlist)),
+                        kind="live/get_prices", sig=["livep", list(src), start, period, it, alg.n], nontrivial=True, raw=pr))
+        out.append(dict(input=dict(op="Interface.get_demand_charge", src=list(src), start=start, period=period,
+                                   iteration=it, st=None, aware=aware, live=True), impl=jres(dc),
+                        coq="(CIfaceDemand (Some %s) %s %s %s None %s)" % (src_coq(src), z(start), z(period), z(it),
+                                                                         res_coq(dc, q)),
+                        kind="live/get_demand_charge", sig=["lived", list(src), start, period, it], nontrivial=True, raw=dc))
+    rates = [[float(x) for x in row] for row in sim.charging_rates]
+    ncol = len(rates[0]) if rates else 0
+    cols = [[rates[s_][k] for s_ in range(len(voltages))] for k in range(ncol)]
+    for which, fn in (("energy", analysis.energy_cost), ("demand", analysis.demand_charge)):
+        r = call(lambda: fn(sim))
+        if which == "energy":
+            coq = "(CEnergy %s %s %s %s %s %s)" % (src_coq(src), z(start), z(period), qlist(voltages),
+                                                coq_list([qlist(c) for c in cols]), res_coq(r, q))
+        else:
+            coq = "(CDemandCharge %s %s %s %s %s)" % (src_coq(src), z(start), qlist(voltages),
+                                                  coq_list([qlist(c) for c in cols]), res_coq(r, q))
+        out.append(dict(input=dict(op="analysis." + ("energy_cost" if which == "energy" else "demand_charge"),
+                                   src=list(src), start=start, period=period, voltages=voltages, rates=rates, aware=aware,
+                                   explicit=False, live=True), impl=jres(r), coq=coq, kind="live/analysis." + which,
+                        sig=["live" + which, list(src), start, period, rates], nontrivial=ncol > 0, raw=r))
+    return out
+
+
 def fixed_cases(names):
     """deterministic part: year sweeps and constructor state for every bundled file"""
     cases = []
@@ -646,6 +715,8 @@ def gen_cases_main(rng, n, tier, names):
                                  rng.choice([at(1, 1, 1), at(9999, 12, 31, 86399, 999999), at(2000, 2, 29, 86399),
                                              at(1900, 3, 1), at(2100, 2, 28, 86399, 999999), at(1600, 12, 31)])))
     fixed, cases = cases[:len(names) * 3], cases[len(names) * 3:]
+    for _ in range(5 if tier == "quick" else 40):
+        cases.extend(live_cases(rng, names))
     while len(cases) + len(fixed) < n:
         cases.append(bundled_random_case(rng, names))
     # spread the long sweeps over the shards (they dominate the evaluation time)
